@@ -54,7 +54,9 @@ func runC07(o *opts) (*summary, error) {
 	rng := rand.New(rand.NewSource(o.seed))
 	g := &G{r: rng, inDomain: false}
 	thorough := o.tier == "thorough"
-	u, d := stubClient(stubCfgs[int(o.seed)%len(stubCfgs)])
+	// (a client that knows some of the controllers: what is configured for a controller - its door names, say - is no
+	// reason to accept or refuse an argument)
+	u, d := stubClient(stubCfgs[1+int(o.seed)%(len(stubCfgs)-1)])
 	emit := func(cs callSpec, class string) { w.put(doCall(u, d, cs), class, argKey(cs)) }
 
 	// (1) controller id 0 on every operation (and, for contrast, the same generator with a valid id)
@@ -70,7 +72,7 @@ func runC07(o *opts) (*summary, error) {
 	}
 
 	// (2) PutCard: boundary card numbers x format lists, PINs
-	cards := []uint32{0, 1, 0x00ffffff, 0x00fffffe, 0x01000000, 0xffffffff, 0xfffffffe, 99999999, 100000000, 100000001, 2550000001, 1000000000, 4294967295, 25565535, 25565536, 25600000, 6154412}
+	cards := []uint32{0, 1, 0x00ffffff, 0x00fffffe, 0x01000000, 0xffffffff, 0xfffffffe, 0x01ffffff, 0x02ffffff, 0x7fffffff, 0x80ffffff, 0xfeffffff, 0xffffff00, 0xffff00ff, 0x0100ffff, 0xff000000, 99999999, 100000000, 100000001, 2550000001, 1000000000, 4294967295, 25565535, 25565536, 25600000, 6154412}
 	for f := uint32(0); f <= 256; f++ {
 		for _, c := range []uint32{0, 1, 65535, 65536, 99999} {
 			cards = append(cards, f*100000+c)
